@@ -64,6 +64,12 @@ def cases(tier, seed, PROP):
         for k in range(12 if tier == 'quick' else 200):
             yield {'stratum': 'explicit-origin-reference-zero', 'index': k, 'kind': 'origin-zero'}
         yield {'stratum': 'kf-regression', 'index': 0, 'kind': 'kf-c07-across-sets'}
+        # the origin's reference re-assigned before the other objects are added; one header object given to two logical files
+        for k in range(16 if tier == 'quick' else 300):
+            yield {'stratum': 'header-origin-field', 'index': k, 'kind': 'header-origin'}
+        # same-named objects, one of them renamed to a FRESH name (no collision at any moment), then the old name used again
+        for k in range(40 if tier == 'quick' else 800):
+            yield {'stratum': 'rename-away-then-reuse-name', 'index': k, 'kind': 'rename-reuse'}
         # identities changed between two writes (rename, another origin): references must follow
         for k in range(60 if tier == 'quick' else 1500):
             yield {'stratum': 'identity-change-then-rewrite', 'index': k, 'kind': 'rewrite'}
@@ -198,6 +204,67 @@ def _build_spec(case, PROP, r):
         elif t == 'no_format':
             for j in picks:
                 sp['ops'].append(gen.nf_data_op(first + j, b'payload of copy %d' % j))
+        return sp
+    if k == 'header-origin':
+        how = r.choice(['origin-reference-reassigned', 'header-reference-reassigned', 'header-shared'])
+        case['how'] = how
+        two = how == 'header-shared'
+        sp = gen.base_spec(r.choice([512, 8192]), lfs=([{'fh_id': 'SHARED-HDR', 'as_object': r.random() < 0.5},
+                                                        {'fh_id': 'SHARED-HDR', 'share_header_of': 0}] if two else [{}]))
+        sp['write'] = {'output_chunk_size': 2 ** 16}
+        for lf in range(2 if two else 1):
+            sn = {'set_name': f'S{lf}'} if two else {}
+            ref = r.choice([1, 5, 200, 20000]) + lf
+            oi = len(sp['ops'])
+            sp['ops'].append(dict(gen.origin_op(f'ORIGIN-{lf}', fsn=3, **({'origin_reference': ref} if two or r.random() < 0.5 else {})), lf=lf, **sn))
+            if how == 'origin-reference-reassigned':
+                sp['ops'].append({'op': 'setattr', 'target': oi, 'field': 'origin_reference', 'value': ref + r.choice([1, 7, 300])})
+            elif how == 'header-reference-reassigned':
+                sp['ops'].append({'op': 'set_header', 'lf': lf, 'field': 'origin_reference', 'value': ref + r.choice([1, 7, 300])})
+            ci = len(sp['ops'])
+            sp['ops'].append(dict(gen.channel_op(f'CH{lf}', '<f8', (3,), fill={'kind': 'pos', 'tag': lf + 1}, lf=lf), **sn))
+            sp['ops'].append(dict(gen.frame_op(f'FR{lf}', [ci], lf=lf), **sn))
+            sp['ops'].append(dict({'op': 'zone', 'name': f'Z{lf}', 'attrs': {}, 'lf': lf}, **sn))
+        return sp
+    if k == 'rename-reuse':
+        sp = gen.minimal(r.choice([512, 8192]))
+        sp['write'] = {'output_chunk_size': 2 ** 16}
+        t = r.choice(['zone', 'zone', 'axis', 'long_name', 'no_format', 'tool', 'channel', 'frame'])
+        made = []
+
+        def one(name):
+            ops = sp['ops']
+            if t == 'channel':
+                ops.append(gen.channel_op(name, r.choice(['<f8', '<i2', '<u1']), (3,) if r.random() < 0.6 else (3, r.choice([2, 3])),
+                                          fill={'kind': 'pos', 'tag': len(ops)}, dataset_name=f'ds-{len(ops)}'))
+                ops.append(gen.frame_op(f'FR-{len(ops)}', [len(ops) - 1]))
+                made.append(len(ops) - 2)
+            elif t == 'frame':
+                ops.append(gen.channel_op(f'CH-{len(ops)}', r.choice(['<f8', '<i2', '<u1']), (3,) if r.random() < 0.6 else (3, 2),
+                                          fill={'kind': 'pos', 'tag': len(ops)}))
+                ops.append(gen.frame_op(name, [len(ops) - 1]))
+                made.append(len(ops) - 1)
+            else:
+                ops.append({'op': t, 'name': name, 'attrs': ({'description': f'object {len(ops)}'} if t in ('zone', 'no_format') else {})})
+                made.append(len(ops) - 1)
+                if t == 'no_format':
+                    ops.append(gen.nf_data_op(len(ops) - 1, b'payload of object %d' % (len(ops) - 1)))
+        for j in range(r.choice([1, 2, 2, 3, 4])):
+            one('A')
+        for _ in range(r.choice([1, 1, 2])):
+            if len(made) < 1:
+                break
+            away = r.choice(made)
+            fresh = f'FRESH-{away}'
+            sp['ops'].append({'op': 'setattr', 'target': away, 'field': 'name', 'value': fresh})
+            for j in range(r.choice([1, 2, 3])):
+                one('A' if r.random() < 0.8 else fresh)
+        if t not in ('channel', 'frame'):
+            sp['ops'].append({'op': 'group', 'name': 'G', 'attrs': {'object_list': [{'$ref': i} for i in made]}})
+        if t == 'zone':
+            sp['ops'].append({'op': 'parameter', 'name': 'P', 'attrs': {'zones': [{'$ref': i} for i in made], 'values': [float(i) for i in made]}})
+        elif t == 'channel':
+            sp['ops'].append({'op': 'tool', 'name': 'T', 'attrs': {'channels': [{'$ref': i} for i in made]}})
         return sp
     if k == 'retry':
         from vf.checks import c20
@@ -543,6 +610,10 @@ def run_case(case, PROP):
     if case['kind'] == 'foreign-ref':
         bump('object-of-another-logical-file')
         bump('foreign:' + case.get('foreign_what', '?') + (':written' if run.data is not None else ':refused'))
+    if case['kind'] == 'header-origin':
+        bump('header-origin-field:' + case['how'] + (':written' if run.data is not None else ':refused'))
+    if case['kind'] == 'rename-reuse' and run.data is not None:
+        bump('rename-away-then-reuse-name')
     if case['kind'] == 'across-types' and run.data is not None:
         bump('same-name-across-types')
     if case['kind'] == 'same-named' and run.data is not None:
